@@ -11,6 +11,7 @@ pub enum Case {
     Trk(crate::trk::Case),
     Val(crate::val::Case),
     Mass(crate::mass::Case),
+    Trn(crate::trn::Case),
 }
 
 impl Case {
@@ -20,10 +21,14 @@ impl Case {
             Case::Trk(c) => c.hash_seed,
             Case::Val(c) => c.hash_seed,
             Case::Mass(c) => c.hash_seed,
+            Case::Trn(c) => c.hash_seed,
         }
     }
     pub fn size(&self) -> usize {
         match self {
+            Case::Trn(c) => c.crashes.len() + c.interval_changes.len() + c.route.len() * 4 + c.train.consist.len() + c.train.cars.len() + c.train.cars.iter().map(|x| (x.n as usize) / 8).sum::<usize>()
+                + match &c.kind { crate::trn::Kind::SetSpeed { trace, .. } => trace.len(), crate::trn::Kind::LimitManual { auths, .. } => 3 + auths.len() * 2, crate::trn::Kind::LimitTimed { .. } => 3, _ => 1 }
+                + c.route.iter().map(|l| { let l = &c.links[*l as usize]; l.elevs.len() + l.headings.len() + l.speed_set.as_ref().map(|s| s.speed_limits.len()).unwrap_or(0) }).sum::<usize>(),
             Case::Mass(c) => c.ops.len() + c.init_spec.is_some() as usize + match c.target { crate::mass::Target::Consist { n } => n, _ => 1 },
             Case::Val(c) => c.links.len() + if c.only.is_some() { 0 } else { 1000 },
             Case::Pt(c) => c.ops.len() + c.locos.len(),
@@ -60,7 +65,21 @@ const MASS_REAL: &[&str] = &["Mass trait setters/getters of FuelConverter, Gener
 const MASS_STUB: &[&str] = &["no clock, no schedule: sequential reference-model comparison (weak fit, DESIGN 5)"];
 const MASS_RULE: &str = "a case = target (component / locomotive with or without redundant mass data / consist) built from a file + seeded sequence of 1-12 setter calls with all side-effect options, reloads and updates that must be rejected; distinct = distinct hash of (target, which fields known initially, fault kinds fired, probes); non-trivial = at least 2 ops";
 
+const TRN_REAL: &[&str] = &["TrainSimBuilder, SetSpeedTrainSim, SpeedLimitTrainSim (step, extend_path, walk, walk_timed_path), BrakingPoints, FricBrake, TrainRes/Strap, PathTpc, Consist and everything below it (real code)", "SerdeAPI save/load of the whole simulation mid-run (real code)"];
+const TRN_STUB: &[&str] = &["dispatcher -> train authority channel: simulated (early / just in time / late / batched / empty deliveries)", "clock: the simulator issues every step; dt per run in {0.5, 1, 2} s, irregular trace stamps for set-speed runs", "pyo3 layer / run_speed_limit_train_sims: not run"];
+const TRN_RULE: &str = "a case = generated network (0-3 sidings, grades up to the bound, 0-4 extra restrictions per link, very short to very long links) + route + generated train (1-3 car types, 5-150 cars, 2-6 units incl. generated ones, optional mass/length overrides) + driver (set-speed trace via shipped walk or simulator steps; speed-limited via shipped walk, walk_timed_path or simulator steps with an authority-delivery schedule) + crash/restore and interval-change points; distinct = distinct hash of (scenario class, fault kinds fired, probes hit); non-trivial = at least 5 (set-speed) / 20 (speed-limited) executed steps";
+
 pub const PROPS: &[PropInfo] = &[
+    PropInfo { id: "C03", world: "trn", level: "exploration", quick_runs: 1200, thorough_runs: 60_000, rule: TRN_RULE, real: TRN_REAL, stub: TRN_STUB,
+        assumptions: &["grade bound 0.8 % and dt in {0.5, 1, 2} s are domain parameters", "a timed walk's internal extension times are not observable: posted limits are evaluated over the path as it ended up", "bounded liveness is stated only after the last authority has been delivered and the last injected fault has fired"] },
+    PropInfo { id: "C07", world: "trn", level: "exploration", quick_runs: 1200, thorough_runs: 60_000, rule: TRN_RULE, real: TRN_REAL, stub: TRN_STUB,
+        assumptions: &["force saved at step k belongs to the position and speed saved at step k-1 (statement)", "coefficients re-aggregated from the car list, mass-weighted over the towed mass as make_train_sim_parts documents", "tolerance 1e-9 relative + 1e-6 N", "the Point method is not produced by TrainSimBuilder and is not exercised"] },
+    PropInfo { id: "C11", world: "trn", level: "exploration", quick_runs: 1200, thorough_runs: 60_000, rule: TRN_RULE, real: TRN_REAL, stub: TRN_STUB,
+        assumptions: &["tolerance 1e-9 relative (1e-8 on instantaneous power)"] },
+    PropInfo { id: "C12", world: "trn", level: "exploration", quick_runs: 1200, thorough_runs: 60_000, rule: TRN_RULE, real: TRN_REAL, stub: TRN_STUB,
+        assumptions: &["offset advance tolerance 1e-5 m (the code snaps speed to its target within 1e-8 after integrating)", "a front exactly on a boundary may be reported on either adjacent segment"] },
+    PropInfo { id: "C14", world: "trn", level: "exploration", quick_runs: 1500, thorough_runs: 80_000, rule: TRN_RULE, real: TRN_REAL, stub: TRN_STUB,
+        assumptions: &["the upper clip is min(published pwr_out_max, previous wheel power + published rate x previous dt), i.e. computed from published consist state only", "tolerance 1e-9 relative"] },
     PropInfo { id: "C20", world: "mass", level: "exploration", quick_runs: 60_000, thorough_runs: 3_000_000, rule: MASS_RULE, real: MASS_REAL, stub: MASS_STUB,
         assumptions: &["weak fit for this technique: only the rejected-update atomicity clause and the reload of setter-accepted states involve a fault; the algebra is a sequential reference-model comparison", "train static mass = cars + consist is checked in the trn world on built simulations"] },
     PropInfo { id: "C16", world: "val", level: "fault_enumeration", quick_runs: 1500, thorough_runs: 100_000, rule: VAL_RULE, real: VAL_REAL, stub: VAL_STUB,
@@ -83,16 +102,31 @@ pub const PROPS: &[PropInfo] = &[
         assumptions: &["save intervals None, 1, n >= 2 (0 is not an interval)", "intervals are changed only at the top level (statement)"] },
 ];
 
+/// wall-clock watchdog per run (the one non-simulated clock; decides nothing except "a run hung")
+pub fn run_timeout_s(prop: &str) -> u64 {
+    match info(prop).map(|i| i.world) {
+        Some("trn") | Some("dsp") => 40,
+        _ => 90,
+    }
+}
+
 pub fn info(prop: &str) -> Option<&'static PropInfo> {
     PROPS.iter().find(|p| p.id == prop)
 }
 
 pub fn generate(prop: &str, rng: &mut Rng, thorough: bool) -> Case {
-    match info(prop).map(|i| i.world) {
+    // some properties span several worlds: the world of a run is one more seeded choice
+    let world = match prop {
+        "C19" => Some(if rng.chance(0.35) { "trn" } else { "pt" }),
+        "C20" => Some(if rng.chance(0.05) { "trn" } else { "mass" }),
+        _ => info(prop).map(|i| i.world),
+    };
+    match world {
         Some("pt") => Case::Pt(crate::pt::generate(rng, prop, thorough)),
         Some("trk") => Case::Trk(crate::trk::generate(rng, prop, thorough)),
         Some("val") => Case::Val(crate::val::generate(rng, prop, thorough)),
         Some("mass") => Case::Mass(crate::mass::generate(rng, prop, thorough)),
+        Some("trn") => Case::Trn(crate::trn::generate(rng, prop, thorough)),
         _ => panic!("no world for property {prop}"),
     }
 }
@@ -103,6 +137,7 @@ pub fn execute(case: &Case, ctx: &mut Ctx) {
         Case::Trk(c) => crate::trk::execute(c, ctx),
         Case::Val(c) => crate::val::execute(c, ctx),
         Case::Mass(c) => crate::mass::execute(c, ctx),
+        Case::Trn(c) => crate::trn::execute(c, ctx),
     }
 }
 
@@ -110,6 +145,7 @@ pub fn shrink(case: &Case, v: &Violation) -> Vec<Case> {
     match case {
         Case::Val(c) => crate::val::shrink(c, v).into_iter().map(Case::Val).collect(),
         Case::Mass(c) => crate::mass::shrink(c).into_iter().map(Case::Mass).collect(),
+        Case::Trn(c) => crate::trn::shrink(c).into_iter().map(Case::Trn).collect(),
         Case::Pt(c) => crate::pt::shrink(c).into_iter().map(Case::Pt).collect(),
         Case::Trk(c) => crate::trk::shrink(c).into_iter().map(Case::Trk).collect(),
     }
@@ -128,6 +164,14 @@ pub fn panic_property(case: &Case, _layer: &str, location: &str) -> Option<&'sta
         // building a path must never panic: speed-profile code -> C13, everything else in this world -> C06
         Case::Val(_) => Some("C16"),
         Case::Mass(_) => Some("C20"),
+        // a train simulation ends with Ok or a descriptive error, never a panic (C03); panics in the split code belong to C10
+        Case::Trn(_) => {
+            if location.contains("consist_utils.rs") {
+                Some("C10")
+            } else {
+                Some("C03")
+            }
+        }
         Case::Trk(_) => {
             if location.contains("speed_point.rs") || location.contains("speed_limit.rs") {
                 Some("C13")
